@@ -947,3 +947,34 @@ def check_from_str(F, max_len=None):
 class _SymStr:
     def __init__(s, n): s.n = n
     def __deepcopy__(s, memo): return s
+
+# ---------------------------------------------------------------------------------------------- sign (the body behind the uninterpreted predicate)
+def check_sign(build):
+    """`impl Sign for Fq`::is_nonnegative - every element-level check treats the sign as an uninterpreted predicate of the value with
+    neg(0) = false and neg(-x) = !neg(x); here the body is decided: with `to_le_limbs` (contract W: the canonical little-endian
+    limbs of the value) returning four arbitrary 64-bit limbs, the answer is exactly `bit 0 of limb 0 is clear` - the parity of the
+    canonical value, which has those two properties because q is odd.  `is_negative` and `abs` are the trait's default bodies and are
+    executed as they are by the element-level checks."""
+    items = _items(build); obs = []
+    name = f'{build}:`impl Sign for Fq`::is_nonnegative is `the canonical value is even` (bit 0 of limb 0 of to_le_limbs, all limb values)'
+    try: it = mirsym.find_item_hdr(items, r'::is_nonnegative$', r'Sign for Fq')
+    except Unsupported as e: return [Ob(name, 'inconclusive', str(e), 0, 'mirsym')]
+    limbs = [z3.BitVec(f'sl{i}', 64) for i in range(4)]
+    M = models.base_models()
+    M['fns'] = [(r'^fields::fq::u(32|64)::wrapper::Fq::to_le_limbs$', lambda I, fr, fn, a: list(limbs))] + [m for m in M['fns'] if 'is_nonnegative' not in m[0]]
+    def body(I, h):
+        h.locals['x'] = FE.sym('Fq', 'x'); return I.call_item(it, [Ref(h, 'x', [])])
+    recs = _run(items, M, body, name, obs)
+    if not recs: return obs
+    want = z3.Extract(0, 0, limbs[0]) == 0; t0 = time.time(); bad = False
+    for r in recs:
+        if 'panic' in r: obs.append(Ob(name, 'violated', 'panics: ' + r['panic'], 0, 'mirsym/BV', None, {'kind': 'sign', 'build': build})); bad = True; continue
+        got = r['result']; got = z3.BoolVal(got) if isinstance(got, bool) else got
+        sv = z3.Solver(); sv.set('timeout', 30000); sv.add(*[p for p in r['path'] if z3.is_expr(p)]); sv.add(got != want)
+        v = sv.check()
+        if v == z3.sat:
+            m_ = sv.model(); obs.append(Ob(name, 'violated', f'answer differs from the parity of the canonical value for limbs {[m_.eval(l, model_completion=True).as_long() for l in limbs]}', time.time() - t0, 'mirsym + z3 QF_BV',
+                                           None, {'kind': 'sign', 'build': build, 'limbs': [m_.eval(l, model_completion=True).as_long() for l in limbs]})); bad = True
+        elif v != z3.unsat: obs.append(Ob(name, 'inconclusive', 'z3 unknown', time.time() - t0, 'z3')); bad = True
+    if not bad: obs.append(Ob(name, 'proved', f'{len(recs)} path(s)', time.time() - t0, 'mirsym + z3 QF_BV'))
+    return obs
